@@ -232,6 +232,11 @@ def evaluate_z3_re_loop(
     params = expr.params()
     bounds = f"{params[0]},{params[1]}" if len(params) > 1 else f"{params[0]},"
 
+    if len(params) > 1 and params[1] < params[0]:
+        # The language is empty if the upper bound is below the lower one; Python's
+        # `re` module rejects such a quantifier.
+        return Some(construct_result(lambda args: "(?!)", children_results))
+
     return Some(
         construct_result(
             lambda args: f"({args[0]}){{{bounds}}}",
